@@ -70,6 +70,7 @@ type Exec struct {
 
 	cellFuncs       map[string]*FuncInfo
 	calledContracts map[*Contract]bool
+	lockSites       []Val // mutexes this unit locks or unlocks (pointer values), for the lock.balance obligation
 	beforeHit       map[string]bool // `before CALLEE` keys that matched at least one call site
 	returnReach     []string
 	backReach       []string // reach condition of every loop back edge (top-level function), for the vacuity cover
@@ -422,6 +423,19 @@ func (ex *Exec) havocAll(st *State, why string) {
 			}
 		}
 	}
+	// lock state survives a heap havoc: whatever ran (a callee with "modifies *", an interface method, a loop body)
+	// returns with the set of locks it was entered with — proved for every unit under contract (lock.balance), assumed
+	// for code outside the verifier's reach (A-LOCKBAL)
+	for _, k := range sortedKeys(ex.keySort) {
+		if isHeldKey(k) {
+			if v, ok := st.H[k]; ok {
+				keep[k] = v
+			} else {
+				keep[k] = ex.defaultTerm(k, st.Base)
+			}
+			ex.used["A-LOCKBAL: lock state is unchanged by code that is havocked (callees return with the lock set they were entered with; proved for units under contract, assumed for external code)"] = true
+		}
+	}
 	prevH, prevBase, prevTop := st.H, st.Base, st.Top
 	st.H = keep
 	top := ex.freshOrTerm("top", sInt)
@@ -732,4 +746,13 @@ func (ex *Exec) pureScope(f func() string) string {
 		body = "(let ((" + lets[i][0] + " " + lets[i][1] + ")) " + body + ")"
 	}
 	return body
+}
+
+// isHeldKey: heap keys holding the "held" flag of a sync.Mutex / RWMutex (as a struct field or as a cell).
+func isHeldKey(k string) bool {
+	if !(strings.HasPrefix(k, "F|") || strings.HasPrefix(k, "C|")) {
+		return false
+	}
+	leaf := k[strings.LastIndex(k, "|")+1:]
+	return leaf == "held" || strings.HasSuffix(leaf, ".held")
 }
